@@ -99,6 +99,9 @@ class AsyncRunner:
         Pause the execution.
         """
         self._unpaused.clear()
+        if self._stop.is_set():
+            # Do not pause a runner that is being stopped, it has to reach the end of its loop
+            self._unpaused.set()
 
     def unpause(self):
         """
